@@ -523,6 +523,21 @@ func (v *VerifLRU) SetDirty(key uint64, dirty bool) bool {
 	return true
 }
 
+// Mark changes the dirty flag of the node resident under key the way the engine does:
+// markDirty(lsn) for a change, markClean() after a write - without touching recency.
+func (v *VerifLRU) Mark(key uint64, dirty bool, lsn uint64) bool {
+	e, ok := v.c.cache[key]
+	if !ok {
+		return false
+	}
+	if dirty {
+		e.Value.(*cacheEntry).val.markDirty(lsn)
+	} else {
+		e.Value.(*cacheEntry).val.markClean()
+	}
+	return true
+}
+
 // Items lists (key, id, dirty) most recently used first, plus the index size.
 func (v *VerifLRU) Items() (items [][3]uint64, mapLen int) {
 	for e := v.c.list.Front(); e != nil; e = e.Next() {
